@@ -309,6 +309,7 @@ func checkC08(r *core.Run) {
 		c08Tables(r, p, v.name)
 		c08Limbs(r, p, v.name)
 		c08NormalizeThreshold(r, p, v.name)
+		c08EqualsAllLimbs(r, p, v.name)
 		if v.arch == "" {
 			c08Alias(r, p)
 			c08SpecialCases(r, p, "R-C08-alias")
@@ -976,4 +977,95 @@ func c08NormalizeThreshold(r *core.Run, p *core.Program, cfg string) {
 		}
 	})
 	r.Check(n >= 1 && bad == "", rule, key, p.Pos(fn.Pos()), "the final reduction is decided by 'low part >= low 52 bits of p'", bad+map[bool]string{true: "", false: " (no comparison with the low bits of p found)"}[n >= 1])
+}
+
+// c08EqualsAllLimbs: two field elements are equal when every limb is equal.  Field.Equals must read every limb
+// of both operands: an explicit comparison per limb (constant indices covering 0..limbs-1), a comparison of the
+// whole arrays, or a loop from 0 up to the limb count.  A limb left out makes elements that differ only there
+// compare equal - the group law's "same point" test (doubling instead of adding) and signature checks go wrong.
+func c08EqualsAllLimbs(r *core.Run, p *core.Program, cfg string) {
+	const rule = "R-C08-limbs"
+	key := "equals-all-limbs/" + cfg
+	fn := p.Func("lib/secp256k1.(*Field).Equals")
+	if fn == nil || len(fn.Params) != 2 {
+		r.Fail(rule, key, "-", "Field.Equals not found")
+		return
+	}
+	limbs := int64(0)
+	covered := map[ssa.Value]map[int64]bool{fn.Params[0]: {}, fn.Params[1]: {}}
+	all := map[ssa.Value]bool{}
+	loopAll := func(idx ssa.Value, b *ssa.BasicBlock) bool {
+		start := false
+		switch x := idx.(type) {
+		case *ssa.Phi:
+			for _, e := range x.Edges {
+				if c, ok := an.ConstOf(e); ok && c.Sign() == 0 {
+					start = true
+				}
+			}
+		case *ssa.BinOp:
+			if ph, ok := x.X.(*ssa.Phi); ok && x.Op == token.ADD {
+				if k, ok := an.ConstOf(x.Y); ok && k.Int64() == 1 {
+					for _, e := range ph.Edges {
+						if c, ok := an.ConstOf(e); ok && c.Int64() == -1 {
+							start = true
+						}
+					}
+				}
+			}
+		}
+		if !start {
+			return false
+		}
+		for _, dc := range an.DomConds(b) {
+			bo, ok := dc.If.Cond.(*ssa.BinOp)
+			if !ok || !dc.True || bo.Op != token.LSS || bo.X != idx {
+				continue
+			}
+			if k, ok := an.ConstOf(bo.Y); ok && k.Int64() == limbs {
+				return true
+			}
+		}
+		return false
+	}
+	an.Instrs(fn, func(i ssa.Instruction) {
+		switch x := i.(type) {
+		case *ssa.IndexAddr:
+			fa, ok := x.X.(*ssa.FieldAddr)
+			if !ok || covered[fa.X] == nil {
+				return
+			}
+			if arr, ok := an.Deref(fa.Type()).Underlying().(*types.Array); ok {
+				limbs = arr.Len()
+			}
+			if c, ok := an.ConstOf(x.Index); ok {
+				covered[fa.X][c.Int64()] = true
+			} else if loopAll(x.Index, x.Block()) {
+				all[fa.X] = true
+			}
+		case *ssa.UnOp:
+			if fa, ok := x.X.(*ssa.FieldAddr); ok && x.Op == token.MUL && covered[fa.X] != nil {
+				if _, isArr := x.Type().Underlying().(*types.Array); isArr {
+					all[fa.X] = true
+				}
+			}
+		}
+	})
+	var miss []string
+	for pi, par := range fn.Params {
+		if all[par] {
+			continue
+		}
+		if limbs == 0 {
+			miss = append(miss, fmt.Sprintf("operand %d: no limb read", pi))
+			continue
+		}
+		for k := int64(0); k < limbs; k++ {
+			if !covered[par][k] {
+				miss = append(miss, fmt.Sprintf("limb %d of operand %d is not read", k, pi))
+			}
+		}
+	}
+	r.Check(len(miss) == 0, rule, key, p.Pos(fn.Pos()), "Equals reads every limb of both operands",
+		"Field.Equals does not compare every limb ("+strings.Join(miss, "; ")+"): elements that differ only there compare equal")
 }
